@@ -1,6 +1,7 @@
 (** C02 — every coalesced request completes: no lost wake-up, no stuck key. *)
 From Coq Require Import List Arith Bool ZArith Lia.
 From Pike Require Import Model.Sys Proofs.ListAux Proofs.SysInv Proofs.SysStep Proofs.SysTheorems Corr.SysCorr.
+From Pike Require Proofs.Lockset Proofs.Atomic.
 Import ListNotations.
 
 (** Progress: in every reachable state in which some request is unfinished,
@@ -72,3 +73,11 @@ Example C02_failed_fetch_releases_everyone :
   option_map (fun s => map obs_of (ts s)) (run (init 1000000 2 false false) ls)
   = Some [TDone LFetching None 0; TDone LHitForPass None 0; TDone LHitForPass None 0; TDone LHitForPass None 0].
 Proof. vm_compute. reflexivity. Qed.
+
+(** ** the completion of a fetch (install, wake every waiter by a blocking
+    send, persist) is one critical section of the entry lock: discharged per
+    run on the skeletons of Cacheable and HitForPass (PerRun/C02_inst.v) *)
+Theorem C02_one_section_sound : forall m l t r,
+  Atomic.one_section m l = true -> Atomic.path_list l t r -> Atomic.count (Atomic.is_acq m) t <= 1 /\ Atomic.count (Atomic.is_rel m) t = 0.
+Proof. exact Atomic.one_section_sound. Qed.
+Print Assumptions C02_one_section_sound.
